@@ -193,6 +193,33 @@ def main() -> int:  # noqa: C901, PLR0912, PLR0915
         # a violation is reported only if its replay reproduces identically twice
         r1 = _replay_digest(path)
         r2 = _replay_digest(path)
+        if r1 == r2 and r1[0] == 3:
+            # deterministic in a fresh process, but violated *differently* than in the exploring
+            # process: the library carried state over from earlier executions there.  The fresh
+            # process is what a reader can reproduce: record what it shows.
+            out = subprocess.run([PY, "-m", "hv.replay", path, "--sigs"], env=_env(), cwd=ROOT, capture_output=True, text=True)
+            try:
+                fresh = json.loads(out.stdout.strip().splitlines()[-1])
+            except (ValueError, IndexError):
+                fresh = []
+            if fresh:
+                body["note"] = (
+                    f"the exploring process observed '{sig}' for this execution; a fresh process "
+                    "deterministically observes the violation recorded here instead"
+                )
+                body["signature"], body["clause"] = fresh[0]["signature"], fresh[0]["clause"]
+                body["expected"], body["observed"] = fresh[0]["expected"], fresh[0]["observed"]
+                os.unlink(path)
+                safe = "".join(c if c.isalnum() or c in "-_." else "_" for c in body["signature"])[:80]
+                path = os.path.join(replay_dir, f"{safe}-{h}.json")
+                with open(path, "w") as fh:
+                    json.dump(body, fh, indent=1, default=repr)
+                r1 = _replay_digest(path)
+                r2 = _replay_digest(path)
+                if body["signature"] in known:
+                    listed += 1
+                    lines.append(f"KNOWN-FINDING: property={prop} signature={body['signature']} {known[body['signature']]}")
+                    continue
         if r1 != r2 or r1[0] != 1:
             harness_errors.append(
                 f"replay of {path} not reproducible: first={r1} second={r2} (nondeterminism)"
